@@ -16,8 +16,8 @@ Theorem C01_write_then_read_composition : forall m variable nl t,
 Proof. exact write_then_read. Qed.
 Print Assumptions C01_write_then_read_composition.
 
-(* ... discharged for every message whose present tags are covered - the 56 regular tags, {1500}, {3600} and {8200}
-   (all but {1120}) - and whose values are canonical FAIM text (for 8 tags canonical includes: long
+(* ... discharged for every message whose present tags are covered - all 60: the 56 regular tags and
+   {1120}, {1500}, {3600}, {8200} - and whose values are canonical FAIM text (for 8 tags canonical includes: long
    enough for the reader's own length guard, which validity implies): no element is dropped, cut,
    shifted or replaced; fixed and variable texts read back to the same message *)
 Theorem C01_write_then_read : forall m variable nl t,
@@ -66,5 +66,5 @@ Example sample_meets_the_hypotheses :
   end.
 Proof. vm_compute. repeat split. eexists. split; [reflexivity|]. apply Nat.leb_le. reflexivity. Qed.
 
-Example fifty_nine_tags_covered : length (filter covered (seq 0 ntags)) = 59.
+Example all_sixty_tags_covered : length (filter covered (seq 0 ntags)) = 60.
 Proof. vm_compute. reflexivity. Qed.
